@@ -319,7 +319,7 @@ peg::parser! {
             }
 
         pub(crate) rule case_item_ns() -> ast::CaseItem =
-            s:specific_operator("(")? p:pattern() specific_operator(")") c:compound_list() {
+            s:specific_operator("(")? !case_item_esac(s) p:pattern() specific_operator(")") c:compound_list() {
                 let start = s.map(Token::location).or_else(|| p.first().and_then(|w| w.loc.as_ref()));
                 let end = c.location();
 
@@ -327,7 +327,7 @@ peg::parser! {
 
                 ast::CaseItem { patterns: p, cmd: Some(c), post_action: ast::CaseItemPostAction::ExitCase, loc }
             } /
-            s:specific_operator("(")? p:pattern() e:specific_operator(")") linebreak() {
+            s:specific_operator("(")? !case_item_esac(s) p:pattern() e:specific_operator(")") linebreak() {
                 let start = s.map(Token::location).or_else(|| p.first().and_then(|w| w.loc.as_ref()));
                 let end = Some(e.location());
 
@@ -336,13 +336,13 @@ peg::parser! {
             }
 
         pub(crate) rule case_item() -> ast::CaseItem =
-            s:specific_operator("(")? p:pattern() specific_operator(")") linebreak() post_action:case_item_post_action() linebreak() {
+            s:specific_operator("(")? !case_item_esac(s) p:pattern() specific_operator(")") linebreak() post_action:case_item_post_action() linebreak() {
                 let start = s.map(Token::location).or_else(|| p.first().and_then(|w| w.loc.as_ref()));
                 let end = Some(post_action.1);
                 let loc = maybe_location(start, end);
                 ast::CaseItem { patterns: p, cmd: None, post_action: post_action.0, loc }
             } /
-            s:specific_operator("(")? p:pattern() specific_operator(")") c:compound_list() post_action:case_item_post_action() linebreak() {
+            s:specific_operator("(")? !case_item_esac(s) p:pattern() specific_operator(")") c:compound_list() post_action:case_item_post_action() linebreak() {
                 let start = s.map(Token::location).or_else(|| p.first().and_then(|w| w.loc.as_ref()));
                 let end = Some(post_action.1);
                 let loc = maybe_location(start, end);
@@ -359,6 +359,11 @@ peg::parser! {
             non_posix_extensions_enabled() s:specific_operator(";&") {
                 (ast::CaseItemPostAction::UnconditionallyExecuteNextCaseItem, s.location())
             }
+
+        // A case item that is not introduced by `(` cannot start with the reserved word `esac`
+        // (POSIX grammar rule 4); otherwise `esac )` closing a subshell is taken for an item.
+        rule case_item_esac(open_paren: Option<&'input Token>) -> () =
+            &specific_word("esac") {? if open_paren.is_none() { Ok(()) } else { Err("esac") } }
 
         rule pattern() -> Vec<ast::Word> =
             (w:word() { ast::Word::from(w) }) ++ specific_operator("|")
